@@ -78,6 +78,8 @@ class FakeBleClient:
         pass
 
     async def disconnect(self):
+        if self.is_connected and getattr(self.rig, "gate_disconnect", False):
+            await self.rig.gate("disconnect", 0, None)  # the GATT disconnect takes its time too: other operations may complete first
         if self.is_connected:
             self.is_connected = False
             self.rig.links_closed += 1
